@@ -55,7 +55,7 @@ CHECKS.update({
  "C09": ("exploration", "deviation-bounded exhaustive mutation (every 32/16-bit window x boundary values, every single-byte substitution, every truncation, pairs of annotated fields) executed in resource-limited worker processes with allocation, CPU-time and liveness oracles",
          "Every single-field deviation from each seed (no field annotation needed: every window at every offset is treated as a field), every byte substitution and truncation, plus crafted legal amplifying shapes, is run through all entry points; a panic reaching the harness, heap allocation beyond 1 MiB + 8192 x input, CPU beyond 2 s + 50 us x input, a dead or stalled worker are violations.",
          "Budgets are fixed linear functions chosen far above correct behaviour; fuzzing clauses of the quantifier are not used (sampling).", "benum", "5/C09"),
- "C11": ("model_checking", "controlled scheduler over overlay-instrumented sources: stateless depth-first search over goroutine interleavings with iterative preemption bounding and happens-before state caching (all interleavings for the 2-goroutine first-use scenarios and wherever a pass is never limited by the bound), vector-clock happens-before race detection and per-call sequential-value oracle on every execution; sync.Pool modelled as LIFO reuse; the explorer first has to give the known verdict on 19 litmus programs with and without state caching; free-running -race cross-check (incl. 16 and 64 goroutines at first use, GOMAXPROCS 16/4/1)",
+ "C11": ("model_checking", "controlled scheduler over overlay-instrumented sources: stateless depth-first search over goroutine interleavings with iterative preemption bounding and happens-before state caching (all interleavings for the 2-goroutine first-use scenarios and wherever a pass is never limited by the bound), vector-clock happens-before race detection and per-call sequential-value oracle on every execution; sync.Pool modelled as LIFO reuse; the explorer first has to give the known verdict on 23 litmus programs with and without state caching; free-running -race cross-check (incl. 16 and 64 goroutines at first use, GOMAXPROCS 16/4/1)",
          "The real code, instrumented at check time (sync operations, go statements, package-level variables written outside init, captured variables, pixel accesses), is executed under a scheduler that enumerates schedules; every execution is checked for happens-before races per the Go memory model and for value equality with the sequential result; fresh package state per execution makes every execution a 'very first use'.",
          "SC interleavings only (weak memory via DRF-SC); <= 4 scenario goroutines plus up to 11 library workers; state caching assumes goroutines communicate only through hooked operations (the same assumption the race oracle makes) and merges states on a 128-bit hash; accesses the rewriter cannot see are covered by the supplementary go build -race pass of the same scenarios.", "xsched", "5/C11"),
  "C16": ("exploration", "bounded-exhaustive enumeration of header bit patterns (walking ones/zeros over all 1,024 bits on five backgrounds, every byte lane, all version byte pairs, date components, flag combinations) against an independent decoder written from the ICC.1 field table",
